@@ -877,3 +877,93 @@ Proof. destruct e as [p m d tg]. reflexivity. Qed.
 
 Lemma levels_range_to_zero nlevels : 0 < nlevels -> levels_range None (Some 0) nlevels = [0].
 Proof. intros H. unfold levels_range. replace (Z.min 0 (nlevels - 1)) with 0 by lia. reflexivity. Qed.
+
+(* a task with a configured coverage (complete_extent False) is always cleaned by the tile walk: the per-level
+   shortcuts do not look at coverages *)
+Lemma coverage_task_walks_l b t : t_skip t = false -> t_complete t = false -> strategy b t = SWalk.
+Proof. intros H1 H2. unfold strategy. rewrite H1, H2. reflexivity. Qed.
+
+(* ------------------------------------------------------------------ names of the per-level database files *)
+From Coq Require String Ascii Decimal DecimalString DecimalZ.
+Section LevelFileNames.
+Import String Ascii Decimal DecimalString DecimalZ.
+Local Open Scope string_scope.
+
+Definition is_digit (c : ascii) : bool :=
+  match c with
+  | "0" | "1" | "2" | "3" | "4" | "5" | "6" | "7" | "8" | "9" => true
+  | _ => false
+  end%char.
+
+Fixpoint all_digits (s : string) : bool :=
+  match s with EmptyString => true | String c r => is_digit c && all_digits r end.
+
+Lemma uint_digits d : all_digits (NilEmpty.string_of_uint d) = true.
+Proof. induction d; cbn; auto. Qed.
+
+Lemma level_name_digits l : 0 <= l -> all_digits (level_name l) = true.
+Proof.
+  intros H. unfold level_name. destruct l as [|p|p]; [reflexivity | | lia].
+  cbn. apply uint_digits.
+Qed.
+
+Lemma level_name_inj l l' : level_name l = level_name l' -> l = l'.
+Proof.
+  unfold level_name. intros H.
+  assert (Some (Z.to_int l) = Some (Z.to_int l')) as E.
+  { rewrite <- !NilEmpty.isi. rewrite H. reflexivity. }
+  inversion E as [E']. rewrite <- (DecimalZ.of_to l), <- (DecimalZ.of_to l'), E'. reflexivity.
+Qed.
+
+(* two digit strings each followed by a dot: if one text is a prefix of the other the digit strings are equal *)
+Lemma digits_dot_prefix a b u v :
+  all_digits a = true -> all_digits b = true ->
+  prefixb (a ++ String "." u) (b ++ String "." v) = true -> a = b.
+Proof.
+  revert b; induction a as [|c a IH]; intros b Ha Hb H.
+  - destruct b as [|c' b]; [reflexivity|]. cbn [append prefixb all_digits] in H, Hb.
+    apply andb_prop in Hb. destruct Hb as [Hc _]. apply andb_prop in H. destruct H as [E _].
+    apply Ascii.eqb_eq in E. subst c'. discriminate Hc.
+  - cbn [all_digits] in Ha. apply andb_prop in Ha. destruct Ha as [Hc Ha].
+    destruct b as [|c' b]; cbn [append prefixb] in H; apply andb_prop in H; destruct H as [E H];
+      apply Ascii.eqb_eq in E; subst.
+    + discriminate Hc.
+    + cbn [all_digits] in Hb. apply andb_prop in Hb. destruct Hb as [_ Hb].
+      f_equal. apply (IH b Ha Hb H).
+Qed.
+
+Lemma prefix_refl_app s t : prefixb s (s ++ t) = true.
+Proof. induction s as [|c s IH]; cbn [append prefixb]; [reflexivity|]. rewrite Ascii.eqb_refl. exact IH. Qed.
+
+Lemma prefix_self s : prefixb s s = true.
+Proof. induction s as [|c s IH]; cbn [prefixb]; [reflexivity|]. rewrite Ascii.eqb_refl. exact IH. Qed.
+
+Lemma append_assoc' (a b c : string) : (a ++ b) ++ c = a ++ (b ++ c).
+Proof. induction a as [|x a IH]; cbn; [reflexivity | rewrite IH; reflexivity]. Qed.
+
+(* Removing level l entirely never unlinks the database file of another level l' nor anything named
+   "<database file of l'><suffix>" (its -wal / -shm / -journal companions): 1.mbtile vs 10.mbtile, 10.mbtile-wal *)
+Lemma level_files_apart l l' suffix :
+  0 <= l -> 0 <= l' -> l <> l' ->
+  unlinked_with_level l (level_file l' ++ suffix) = false.
+Proof.
+  intros Hl Hl' Hne. unfold unlinked_with_level.
+  pose proof (level_name_digits l Hl) as Dl. pose proof (level_name_digits l' Hl') as Dl'.
+  apply orb_false_iff. split.
+  - apply String.eqb_neq. intros E. apply Hne. apply level_name_inj.
+    unfold level_file in E. rewrite append_assoc' in E.
+    apply (digits_dot_prefix (level_name l) (level_name l') "mbtile" ("mbtile" ++ suffix) Dl Dl').
+    change (String "." ("mbtile" ++ suffix)) with (".mbtile" ++ suffix). rewrite E.
+    change (String "." "mbtile") with ".mbtile". apply prefix_self.
+  - destruct (prefixb (level_file l ++ "-") (level_file l' ++ suffix)) eqn:P; [|reflexivity].
+    exfalso. apply Hne. apply level_name_inj.
+    unfold level_file in P. rewrite !append_assoc' in P.
+    apply (digits_dot_prefix (level_name l) (level_name l') ("mbtile" ++ "-") ("mbtile" ++ suffix) Dl Dl'). exact P.
+Qed.
+
+Example ex_level_files :
+  unlinked_with_level 1 "1.mbtile" = true /\ unlinked_with_level 1 "1.mbtile-wal" = true /\
+  unlinked_with_level 1 "10.mbtile" = false /\ unlinked_with_level 1 "10.mbtile-wal" = false /\
+  level_file 10 = "10.mbtile".
+Proof. repeat split; reflexivity. Qed.
+End LevelFileNames.
